@@ -153,6 +153,9 @@ def run_corpus(ctx, stats, known_ids):
         for c, r in zip(cases, res):
             stats["corpus_cases"] += 1
             ok = r["res"][0] == "ok" and r["out"] == c["expect"]
+            if not ok and r["res"][0] in ("timeout", "crash"):
+                r = run_real([c["src"]], env={"STEEL_JIT": jit, "C03_TIMEOUT_S": "150"}, timeout=200)[0]
+                ok = r["res"][0] == "ok" and r["out"] == c["expect"]
             if c["known"]:
                 if not ok:
                     if c["known"] in known_ids:
@@ -219,7 +222,7 @@ CLASSES = {"K03a": in_class_k03a}
 # ------------------------------------------------------------------------------------------------
 def run(ctx):
     stats = {"programs": 0, "runs": 0, "prints": 0, "corpus_cases": 0, "known_hits": {}, "ops": {}, "vias": {}, "layouts": {},
-             "threads": 0, "kont": 0, "model": {}, "real_uniqueness_answers": {}, "samples": [], "pending": [], "oracle_mismatch": 0, "distinct": set()}
+             "threads": 0, "kont": 0, "model": {}, "real_uniqueness_answers": {}, "transient_timeouts": 0, "samples": [], "pending": [], "oracle_mismatch": 0, "distinct": set()}
     known = {k.get("id"): k for k in ctx.load_known()}
     # findings of this check that the coordinator has not listed yet are treated as listed (see the report)
     for fid in CLASSES:
@@ -323,6 +326,7 @@ def run(ctx):
         "model_paths": stats["model"],
         "real_uniqueness_answers_per_calling_file(unique,shared; needs the proposed hook, includes the prelude)": stats["real_uniqueness_answers"],
         "python_oracle_vs_lean_S_mismatches": stats["oracle_mismatch"],
+        "timeouts_that_passed_when_rerun_alone": stats["transient_timeouts"],
         "in_place_primitives": prim_cov,
         "translator": {k: v for k, v in (extracted or {}).items() if k != "prims"},
         "known_finding_hits": stats["known_hits"],
@@ -398,6 +402,14 @@ def check_batch(ctx, progs, stats, known, label):
                     stats["samples"].append({"abstract": A.serialise(p).splitlines()[:30], "expected": exp[:8], "real": r["out"][:8],
                                              "model": d["stats"], "jit": jit})
                 continue
+            # a time-out / killed child on a loaded machine is not a verdict: run the program again on its own with a
+            # generous limit; a wrong output or an error of the engine is a verdict even if it does not reproduce
+            if r["res"][0] in ("timeout", "crash"):
+                again = run_real([srcs[i]], env={"STEEL_JIT": jit, "C03_TIMEOUT_S": "150"}, timeout=200)[0]
+                if again["res"][0] == "ok" and again["out"] == exp:
+                    stats["transient_timeouts"] += 1
+                    continue
+                r = again
             # real != S: known class?
             hit = None
             for fid, pred in CLASSES.items():
@@ -408,13 +420,14 @@ def check_batch(ctx, progs, stats, known, label):
                 ctx.known_finding("id=%s class=%s reproduced by a generated program" % (hit, known[hit].get("class", hit)))
                 stats["known_hits"][hit] = stats["known_hits"].get(hit, 0) + 1
                 continue
-            mp, mr = minimise(p, jit)
+            mp, mr = minimise(p, jit, r)
             report(ctx, "%s-%d-jit%s" % (label, i, jit), A.render(mp), mp["expect"], mr, jit,
                    "generated program (minimised from %d to %d statements)" % (len(p["main"]), len(mp["main"])), A.serialise(mp))
 
 
-def minimise(p, jit):
-    """statement-level delta reduction; the oracle is the python evaluator (checked equal to the driver's S)"""
+def minimise(p, jit, first):
+    """statement-level delta reduction; the oracle is the python evaluator (checked equal to the driver's S).
+    `first` = the failing record that was observed (reported as it is when the failure does not reproduce)."""
     def attempt(main):
         q = {"main": main, "globals": A.globals_of(main), "layout": p["layout"], "ops": {}, "vias": {}}
         try:
@@ -427,8 +440,8 @@ def minimise(p, jit):
         return q, r
     cur = attempt(list(p["main"]))
     if cur is None:
-        r = run_real([A.render(p)], env={"STEEL_JIT": jit}, timeout=60)[0]
-        return p, r
+        return p, first
+
     main = list(p["main"])
     changed, rounds = True, 0
     while changed and rounds < 6:
